@@ -367,17 +367,18 @@ fn f64_space(ctx: &Ctx, nmax: usize) {
 }
 
 fn complex_space(ctx: &Ctx) {
-    let letters = [Cmplx::new(0., 0.), Cmplx::new(1., 0.), Cmplx::new(0., 1.), Cmplx::new(-1., 1.)];
-    let lq = [model::CQ::new(r(0), r(0)), model::CQ::new(r(1), r(0)), model::CQ::new(r(0), r(1)), model::CQ::new(r(-1), r(1))];
+    let letters = [Cmplx::new(0., 0.), Cmplx::new(1., 0.), Cmplx::new(0., 1.), Cmplx::new(-1., 1.), Cmplx::new(0., -2.), Cmplx::new(3., 0.)];
+    let lq = [model::CQ::new(r(0), r(0)), model::CQ::new(r(1), r(0)), model::CQ::new(r(0), r(1)), model::CQ::new(r(-1), r(1)), model::CQ::new(r(0), r(-2)), model::CQ::new(r(3), r(0))];
+    let nl = letters.len() as u64;
     for n in 1..=3usize {
         let k = 3 * n - 2;
         ctx.lattice(
-            &format!("Complex<f64> n={} all diagonal entries over {{0,1,i,-1+i}}", n),
-            pow(4, k as u32),
+            &format!("Complex<f64> n={} all diagonal entries over {{0,1,i,-1+i,-2i,3}}: det, conj, product, solve against exact Gaussian-rational elimination", n),
+            pow(nl, k as u32),
             |idx| format!("{}", idx),
             |idx, acc| {
                 let mut d = vec![0usize; k];
-                digits_uniform(idx, 4, &mut d);
+                digits_uniform(idx, nl, &mut d);
                 let sub: Vec<Cmplx> = d[..n - 1].iter().map(|&i| letters[i]).collect();
                 let main: Vec<Cmplx> = d[n - 1..2 * n - 1].iter().map(|&i| letters[i]).collect();
                 let sup: Vec<Cmplx> = d[2 * n - 1..].iter().map(|&i| letters[i]).collect();
@@ -417,6 +418,47 @@ fn complex_space(ctx: &Ctx) {
                             s += sup[i] * x[i + 1];
                         }
                         ensure!((y[i] - s).abs() <= 1e-13, "complex product row {}", i);
+                    }
+                    // solve: exact Thomas elimination over the Gaussian rationals; judged when no pivot vanishes
+                    let bq: Vec<model::CQ> = (0..n).map(|i| model::CQ::new(r(1 + i as i64), r(if i % 2 == 0 { -2 } else { 1 }))).collect();
+                    let mut beta = vec![model::CQ::zero(); n];
+                    let mut g = vec![model::CQ::zero(); n];
+                    let mut singular = false;
+                    for j in 0..n {
+                        let (b_j, rhs) = if j == 0 {
+                            (aq[0][0], bq[0])
+                        } else {
+                            let m = aq[j][j - 1].div(beta[j - 1]);
+                            (aq[j][j].sub(m.mul(aq[j - 1][j])), bq[j].sub(m.mul(g[j - 1])))
+                        };
+                        if b_j.is_zero() {
+                            singular = true;
+                            break;
+                        }
+                        beta[j] = b_j;
+                        g[j] = rhs;
+                    }
+                    if !singular {
+                        let mut xq = vec![model::CQ::zero(); n];
+                        for j in (0..n).rev() {
+                            let mut t2 = g[j];
+                            if j + 1 < n {
+                                t2 = t2.sub(aq[j][j + 1].mul(xq[j + 1]));
+                            }
+                            xq[j] = t2.div(beta[j]);
+                        }
+                        let bv: Vector<Cmplx> = Vector::create(bq.iter().map(|z| Cmplx::new(z.re.to_f64(), z.im.to_f64())).collect());
+                        let got = t.solve(&bv);
+                        ensure!(got.size() == n, "complex solve: wrong length");
+                        let scale = xq.iter().map(|z| z.re.to_f64().hypot(z.im.to_f64())).fold(1.0, f64::max);
+                        for i in 0..n {
+                            let e = (got[i].real - xq[i].re.to_f64()).hypot(got[i].imag - xq[i].im.to_f64());
+                            ensure!(e <= 1e-11 * scale, "complex solve: x[{}] = {:?} but the exact solution has ({}, {})", i, got[i], xq[i].re, xq[i].im);
+                        }
+                        acc.hit("complex tridiagonal solves");
+                        if main.iter().any(|z| z.real == 0.0 && z.imag != 0.0) {
+                            acc.nontriv("complex solve with a purely imaginary diagonal entry");
+                        }
                     }
                     Ok(())
                 });
@@ -612,7 +654,7 @@ fn main() {
     ctx.rule("E1: every tridiagonal matrix with all 3n-2 entries over {0,1,-1,2,3} for n=1..4 and over {0,1,-1} for n=5 (thorough: 4 letters n=5, 3 letters n=6); Toeplitz matrices n=6..12 over 5 letters with the pivot of every elimination step k forced to exactly zero; index/convert/transpose/det/&T*&x against the dense twin over exact rationals; solve must return x with T*x=r exactly iff exact pivot-free elimination meets no zero pivot and otherwise panic with the zero-pivot message; arithmetic operators/constructors for n=1..8; f64 diagonally dominant families (backward error), Complex<f64> lattice. E2: BFS over histories of index writes / transpose / scalar and matrix arithmetic / resize on real Tridiagonal<Rat> objects of order 1..3. Non-trivial: n=1, n=2, zero leading pivot, zero pivot at a later step, zero off-diagonal entries, order>=6.");
     ctx.assume("orders above 6 only through Toeplitz families; f64 claim checked on strictly diagonally dominant systems only, as the property states");
     ctx.threshold("backward_error_tridiagonal_solve", BE_THRESHOLD);
-    ctx.require(&["n=1", "n=2", "zero leading pivot", "zero pivot at a later step", "zero sub/super-diagonal entry", "order >= 6", "exact tridiagonal solves", "zero-pivot refusals", "n=1 state", "zero-pivot state"]);
+    ctx.require(&["n=1", "n=2", "zero leading pivot", "zero pivot at a later step", "zero sub/super-diagonal entry", "order >= 6", "exact tridiagonal solves", "zero-pivot refusals", "n=1 state", "zero-pivot state", "complex solve with a purely imaginary diagonal entry"]);
     let z5 = vec![r(0), r(1), r(-1), r(2), r(3)];
     for n in 1..=3 {
         exhaustive(&ctx, n, z5.clone());
